@@ -213,8 +213,15 @@ func (c *Ctx) Shrink(f Found, judge Judge, budget time.Duration) (Found, []strin
 			break
 		}
 	}
-	// 5. drop world files (whole packages first)
-	{
+	// 5. drop world files (whole packages first) — not for spec-driven histories, whose
+	// models are evaluated against the spec
+	hasSpec := false
+	for _, op := range cur.Ops {
+		if op.Gen != nil && op.Gen.Spec != nil {
+			hasSpec = true
+		}
+	}
+	if !hasSpec {
 		dirs := map[string][]string{}
 		for p := range cur.World.Files {
 			d := p
